@@ -194,7 +194,22 @@ pub fn builder(dir: &Path, sp: &SpecP, cfg: &CfgP, bg_cleanup: bool, mode: Optio
 }
 
 /// the same configuration through `Logger` (C04: flush/shutdown/drop of the LoggerHandle)
+/// `VIA addwriter`: the file writer of the case is an ADDITIONAL writer of a logger that has no
+/// primary output (`do_not_log`); records reach it through the target `{flw}`, and flush / shutdown /
+/// drop reach it through the handle's treatment of additional writers
+static VIA_ADD: std::sync::atomic::AtomicBool = std::sync::atomic::AtomicBool::new(false);
+fn lw_target() -> &'static str { if VIA_ADD.load(std::sync::atomic::Ordering::SeqCst) { "{flw}" } else { "t" } }
+
 pub fn logger(dir: &Path, sp: &SpecP, cfg: &CfgP, mode: Option<WriteMode>, errchan: &Path) -> (Box<dyn log::Log>, flexi_logger::LoggerHandle) {
+    if VIA_ADD.load(std::sync::atomic::Ordering::SeqCst) {
+        let w = builder(dir, sp, cfg, false, mode).try_build().expect("try_build");
+        return flexi_logger::Logger::with(flexi_logger::LogSpecification::trace())
+            .do_not_log()
+            .add_writer("flw", Box::new(w))
+            .error_channel(flexi_logger::ErrorChannel::File(errchan.to_path_buf()))
+            .panic_if_error_channel_is_broken(false)
+            .build().expect("Logger::build");
+    }
     let mut l = flexi_logger::Logger::with(flexi_logger::LogSpecification::trace())
         .log_to_file(file_spec(dir, sp))
         .format(raw_format)
@@ -770,6 +785,7 @@ fn execute_inner(ctx: &mut Ctx, lines: &[String]) -> Vec<String> {
     };
     let mut h = Hist::default();
     CRLF.store(false, std::sync::atomic::Ordering::SeqCst);
+    VIA_ADD.store(false, std::sync::atomic::Ordering::SeqCst);
     let mut bg_lockstep = false;
     let mut bg_adversarial = false;
     let mut nocheck_foreign = false;
@@ -852,7 +868,8 @@ fn execute_inner(ctx: &mut Ctx, lines: &[String]) -> Vec<String> {
                 "ok".into()
             }
             ["VIA", v] => {
-                f.via_logger = *v == "logger";
+                f.via_logger = *v == "logger" || *v == "addwriter";
+                VIA_ADD.store(*v == "addwriter", std::sync::atomic::Ordering::SeqCst);
                 "ok".into()
             }
             ["LW", b, now] => {
@@ -865,7 +882,7 @@ fn execute_inner(ctx: &mut Ctx, lines: &[String]) -> Vec<String> {
                     f.lg = Some((b, vec![h]));
                 }
                 let payload = String::from_utf8(bytes[..bytes.len() - if crlf() { 2 } else { 1 }].to_vec()).unwrap();
-                with_clock(now, || f.lg.as_ref().unwrap().0.log(&Record::builder().level(log::Level::Info).target("t").args(format_args!("{}", payload)).build()));
+                with_clock(now, || f.lg.as_ref().unwrap().0.log(&Record::builder().level(log::Level::Info).target(lw_target()).args(format_args!("{}", payload)).build()));
                 let ev = ech.new_events();
                 // no fault is injected in these histories: every record whose log call returned counts
                 h.recs.push((bytes.clone(), now));
@@ -944,7 +961,7 @@ fn execute_inner(ctx: &mut Ctx, lines: &[String]) -> Vec<String> {
                                 while !stop.load(std::sync::atomic::Ordering::Relaxed) && i < 1500 {
                                     {
                                         let _g = gate.read().unwrap();
-                                        lgr.log(&Record::builder().level(log::Level::Info).target("t").args(format_args!("noise-{t}-{i}")).build());
+                                        lgr.log(&Record::builder().level(log::Level::Info).target(lw_target()).args(format_args!("noise-{t}-{i}")).build());
                                     }
                                     i += 1;
                                     if i % 4 == 0 { std::thread::yield_now(); }
@@ -954,7 +971,7 @@ fn execute_inner(ctx: &mut Ctx, lines: &[String]) -> Vec<String> {
                         let mut missing = None;
                         for round in 0..60 {
                             let m = format!("flushc-marker-{li}-{round}");
-                            lgr.log(&Record::builder().level(log::Level::Info).target("t").args(format_args!("{}", m)).build());
+                            lgr.log(&Record::builder().level(log::Level::Info).target(lw_target()).args(format_args!("{}", m)).build());
                             hs[0].flush();
                             let _w = gate.write().unwrap();
                             let mut all: Vec<u8> = Vec::new();
